@@ -531,6 +531,11 @@ def build_instance_tree(
                         vmod_arg.value.modifications = [el_arg]
                         sym_mod.arguments.append(vmod_arg)
                     else:
+                        # The nested arguments are written in the same scope
+                        # as the enclosing argument.
+                        for inner_arg in el_arg.arguments:
+                            if inner_arg.scope is None:
+                                inner_arg.scope = arg.scope
                         sym_mod.arguments.extend(el_arg.arguments)
 
             if sym.class_modification:
@@ -580,6 +585,9 @@ def build_instance_tree(
                             vmod_arg.value.modifications = [el_arg]
                             sym_mod.arguments.append(vmod_arg)
                         else:
+                            for inner_arg in el_arg.arguments:
+                                if inner_arg.scope is None:
+                                    inner_arg.scope = arg.scope
                             sym_mod.arguments.extend(el_arg.arguments)
                 else:
                     arg.value.component = arg.value.component.child[0]
